@@ -51,6 +51,9 @@ pub fn panel() -> Vec<Panel> {
             limits: big(),
             scope_k1: false,
         },
+        // features that raise the Datalog version appear in the policies only: the authorizer block itself is plain 3.0
+        Panel { name: "policy-only-scopes", code: format!("s(\"authz\"); seen($x) <- s($x); check if seen(\"authz\"); deny if tp(\"never\") trusting {k1}; allow if seen($x) trusting authority, {k2}; deny if true;"), params: vec![], limits: big(), scope_k1: false },
+        Panel { name: "policy-only-3.3-features", code: r#"s("authz"); deny if {"a": 1}.get("a") == 2; allow if s($x), [1, null].length() == 2, $x.type() == "string", true || false; deny if true;"#.into(), params: vec![], limits: big(), scope_k1: false },
         Panel { name: "authorizer-scope", code: format!("got($x) <- tp($x); got($x) <- s($x); allow if got($x); deny if true;"), params: vec![], limits: big(), scope_k1: true },
         Panel {
             name: "parameters",
@@ -199,7 +202,11 @@ pub fn run(tier: Tier) {
             });
             match r {
                 Err(pn) => ctx.violation_lazy(format!("C13/panic/{}", panic_site(&pn)), || json!({"panel": p.name, "panic": pn})),
-                Ok(Err(e)) => ctx.violation_lazy(format!("C13/saved-policies-restore-failed/{}", p.name), || json!({"panel": p.name, "code": p.code, "error": e})),
+                Ok(Err(e)) => {
+                    // one defect, one key: the message has no key table, so any `trusting <public key>` scope is lost
+                    let class = if e.contains("UnknownExternalKey") && (p.code.contains("trusting ed25519/") || p.code.contains("secp256r1/")) { "public-key-scope".to_string() } else { p.name.to_string() };
+                    ctx.violation_lazy(format!("C13/saved-policies-restore-failed/{class}"), || json!({"panel": p.name, "code": p.code, "error": e}))
+                }
                 Ok(Ok(ra)) => {
                     // policies do not carry limits or scopes: compare the code
                     let mut l1: Vec<String> = o.dump_code().lines().map(|s| s.to_string()).collect();
